@@ -59,13 +59,24 @@ impl TestCase {
     /// outcome in regards to exit code and (STDOUT) output, or return an
     /// [`TestCaseError`]
     pub fn validate(&self, output: &Output) -> Result<()> {
-        if let ExitStatus::Code(exit_code) = output.exit_code {
-            let expected = self.exit_code.unwrap_or(0);
-            if exit_code != expected {
-                return Err(TestCaseError::InvalidExitCode {
-                    actual: exit_code,
-                    expected,
-                });
+        match output.exit_code {
+            ExitStatus::Code(exit_code) => {
+                let expected = self.exit_code.unwrap_or(0);
+                if exit_code != expected {
+                    return Err(TestCaseError::InvalidExitCode {
+                        actual: exit_code,
+                        expected,
+                    });
+                }
+            }
+            // detached executions are intentionally not waited for
+            ExitStatus::Detached => {}
+            // an execution that did not end in an exit code must never pass
+            ref status => {
+                return Err(TestCaseError::InternalError(anyhow::anyhow!(
+                    "execution ended without exit code: {}",
+                    status
+                )));
             }
         }
         let diff_tool = DiffTool::new(self.expectations.clone());
